@@ -62,6 +62,60 @@ class Violation(AssertionError):
     pass
 
 
+def isolated(execute):
+    """Wrap an execute(case) so that every case runs in a forked child of the worker: whatever process-global state the code
+    under test leaves behind (module-level caches, patched tables, registries) dies with the child, so a history is judged
+    from a clean library state, failures reproduce from the case alone and shrinking is not confused by earlier cases.
+    The child returns the Outcome's fields through a pipe; a child killed by a signal is reported like any crash."""
+    import json
+    import os
+    import signal
+
+    try:  # heavy lazy imports of torch itself (sympy through symbolic_shapes on the first __torch_dispatch__): once, in the parent
+        import torch.fx.experimental.symbolic_shapes  # noqa: F401
+        import torch._dynamo  # noqa: F401
+    except Exception:  # noqa: BLE001
+        pass
+
+    def run(case):
+        r, w = os.pipe()
+        pid = os.fork()
+        if pid == 0:
+            code = 0
+            try:
+                os.close(r)
+                out = execute(case)
+                payload = json.dumps({"failures": out.failures, "nontrivial": bool(out.nontrivial), "fingerprint": out.fingerprint,
+                                      "klass": out.klass, "discard": bool(out.discard)}, default=str).encode()
+                with os.fdopen(w, "wb") as f:
+                    f.write(payload)
+            except BaseException:  # noqa: BLE001  (harness error in the child: reported by the parent)
+                import traceback
+
+                try:
+                    with os.fdopen(w, "wb") as f:
+                        f.write(json.dumps({"harness": traceback.format_exc()[-1500:]}).encode())
+                except Exception:  # noqa: BLE001
+                    code = 3
+            finally:
+                os._exit(code)
+        os.close(w)
+        with os.fdopen(r, "rb") as f:
+            data = f.read()
+        _, status = os.waitpid(pid, 0)
+        out = Outcome()
+        if os.WIFSIGNALED(status):
+            return out.fail(f"crash/{signal.Signals(os.WTERMSIG(status)).name}", "the child running this history was killed by a signal")
+        d = json.loads(data.decode()) if data else {"harness": "child returned nothing"}
+        if "harness" in d:
+            raise RuntimeError("HARNESS-ERROR in isolated child: " + d["harness"])
+        out.failures = [tuple(x) for x in d["failures"]]
+        out.nontrivial, out.fingerprint, out.klass, out.discard = d["nontrivial"], d["fingerprint"], d["klass"], d["discard"]
+        return out
+
+    return run
+
+
 def fp(obj):
     return hashlib.blake2b(json.dumps(obj, sort_keys=True, default=str).encode(), digest_size=8).hexdigest()
 
